@@ -5,7 +5,7 @@
    is identified by its position (graph name, index).  The statements of a
    document are the quads whose object is a literal or an IRI ("value quads").
 
-   * parent ds i       the quad through which quad i is reached: the only other
+   * parent ds i       the quad through which quad i is reached: the only
                        quad of i's graph whose object is i's subject; if there is
                        none and i lives in a named graph _:g, the only quad (in
                        any graph) whose object is the blank node _:g.
@@ -52,21 +52,30 @@ Definition positions (ds : dataset) : list (didx * quad) :=
 Definition refers_to (key : ref) (q : quad) : bool :=
   match get_ref (qo q) with Some r => ref_eqb r key | None => false end.
 
-Definition is_referrer (self : didx) (key : ref) (iq : didx * quad) : bool :=
+(* a quad whose object is `key` *)
+Definition is_referrer (key : ref) (iq : didx * quad) : bool := refers_to key (snd iq).
+(* ... other than the quad at `self` *)
+Definition is_other_referrer (self : didx) (key : ref) (iq : didx * quad) : bool :=
   negb (didx_eqb self (fst iq)) && refers_to key (snd iq).
 
-(* positions of graph (g, l), other than `self`, whose object is `key` *)
-Definition referrers_in (g : string) (l : list quad) (self : didx) (key : ref) : list didx :=
-  map fst (filter (is_referrer self key) (graph_positions g l)).
+(* positions of graph (g, l) whose object is `key` (the asking quad is NOT excluded:
+   a quad whose object is its own subject is a referrer of its own node) *)
+Definition referrers_in (g : string) (l : list quad) (key : ref) : list didx :=
+  map fst (filter (is_referrer key) (graph_positions g l)).
 
-Definition referrers (ds : dataset) (g : string) (self : didx) (key : ref) : list didx :=
+Definition referrers (ds : dataset) (g : string) (key : ref) : list didx :=
   match lookup_graph ds g with
-  | Some l => referrers_in g l self key
+  | Some l => referrers_in g l key
   | None => []
   end.
 
+(* positions anywhere in the dataset, other than `self`, whose object is `key`
+   (used for the blank node that names a graph) *)
+Definition other_referrers_in (g : string) (l : list quad) (self : didx) (key : ref) : list didx :=
+  map fst (filter (is_other_referrer self key) (graph_positions g l)).
+
 Definition all_referrers (ds : dataset) (self : didx) (key : ref) : list didx :=
-  flat_map (fun gl => referrers_in (fst gl) (snd gl) self key) ds.
+  flat_map (fun gl => other_referrers_in (fst gl) (snd gl) self key) ds.
 
 Definition parent (ds : dataset) (i : didx) : option didx :=
   match quad_at ds i with
@@ -75,7 +84,7 @@ Definition parent (ds : dataset) (i : didx) : option didx :=
     match get_ref (qs q) with
     | None => None
     | Some s =>
-      match referrers ds (fst i) i s with
+      match referrers ds (fst i) s with
       | j :: _ => Some j
       | [] =>
         match qg q with
@@ -89,8 +98,8 @@ Definition parent (ds : dataset) (i : didx) : option didx :=
 (* the node described by quad i is referenced from at most one place *)
 Definition unshared_at (ds : dataset) (i : didx) : Prop :=
   forall q s, quad_at ds i = Some q -> get_ref (qs q) = Some s ->
-    (List.length (referrers ds (fst i) i s) <= 1)%nat /\
-    (referrers ds (fst i) i s = [] ->
+    (List.length (referrers ds (fst i) s) <= 1)%nat /\
+    (referrers ds (fst i) s = [] ->
      forall g, qg q = Some (NBlank g) ->
      (List.length (all_referrers ds i (RBlank g)) <= 1)%nat).
 
